@@ -342,7 +342,10 @@ class Walk:
                 st["argv"], st["cwd"] = ["-C", "<REPO>"] + a, "<TW>"
                 st["tags"].append("global:-C")
             elif g == 1:
-                st["argv"] = ["-c", "core.quotepath=off"] + a
+                # settings with a visible effect on stdout / behaviour, so a lost or reordered `-c` pair is observable
+                kv = rng.choice(["color.ui=always", "core.abbrev=20", "status.short=true", "core.quotepath=off", "log.decorate=full",
+                                 "diff.noprefix=true", "commit.verbose=true", "advice.statusHints=false", "status.branch=true"])
+                st["argv"] = ["-c", kv] + a
                 st["tags"].append("global:-c")
             elif g == 2:
                 st["argv"] = ["-c", "user.name=Other Name", "-c", "user.email=other@example.com"] + a
